@@ -1150,6 +1150,9 @@ fn add_sums(cx: &mut Ctx, fam: &str, c: &Cfg, q: &Qry) {
     if let Some(t) = &c.turn {
         cx.st.count(&format!("delay_unit:{}", t.unit));
     }
+    if c.ksp.is_some() || c.edge_oriented {
+        return add_sums_multi(cx, fam, c, q, &app, &query, &r, &s, id);
+    }
     let judged = r.status == "Ok" && r.has_route && !r.recs.is_empty() && r.recs.len() == r.path.len() && r.malformed.is_empty() && s.mm == "ok";
     let (terms, payload) = if judged {
         // the declared initial state of the instance this query builds (the response does not show it)
@@ -1196,6 +1199,100 @@ fn add_sums(cx: &mut Ctx, fam: &str, c: &Cfg, q: &Qry) {
         cx.st.count(if delay { "turn_delay_charged" } else { "no_turn_delay_charged" });
     }
     if judged && r.path.len() >= 2 && (unit_differs || delay) {
+        cx.st.mark_nontrivial(&format!("{}|{}", cfg_json(c), qry_json(q)));
+    }
+    let d = desc(cx, id, fam, c, q, &payload);
+    cx.st.case(terms, vec![format!("I {} {}", id, payload)], d);
+}
+
+/// responses that may carry several routes (k-shortest paths) and / or the zero-cost end edges of an edge-oriented
+/// query: EVERY route's records, traversal_summary and cost are judged against that route's OWN path
+#[allow(clippy::too_many_arguments)]
+fn add_sums_multi(cx: &mut Ctx, fam: &str, c: &Cfg, q: &Qry, app: &Arc<CompassApp>, query: &Value, r: &Resp, s: &Sem, id: usize) {
+    let mut malformed: Vec<String> = r.malformed.iter().filter(|m| *m != "route is neither object nor null").cloned().collect();
+    let routes = if r.status == "Ok" { parse_routes(&r.raw, &mut malformed) } else { vec![] };
+    let judged = r.status == "Ok" && !routes.is_empty() && routes.iter().all(|ro| !ro.recs.is_empty() && ro.recs.len() == ro.path.len()) && malformed.is_empty() && s.mm == "ok";
+    cx.st.count(&format!("routes_in_response:{}", routes.len().min(5)));
+    if let Some(k) = &c.ksp {
+        cx.st.count(&format!("ksp_k:{}", k.k));
+    }
+    let ends: std::collections::BTreeSet<Vec<u64>> = routes.iter().filter_map(|ro| ro.recs.last().map(|et| et.result_state.iter().map(|x| x.0.to_bits()).collect())).collect();
+    if ends.len() >= 2 {
+        cx.st.count("routes_end_in_different_states");
+    }
+    let (terms, payload) = if judged {
+        let app2 = app.clone();
+        let q2 = if r.req.is_object() { r.req.clone() } else { query.clone() };
+        let init: Vec<f64> = catch(AssertUnwindSafe(move || app2.search_app.build_search_instance(&q2).ok().and_then(|si| si.state_model.initial_state().ok()).map(|v| v.iter().map(|x| x.0).collect::<Vec<f64>>())))
+            .ok()
+            .flatten()
+            .unwrap_or_default();
+        // the operation the model re-runs: an edge-oriented query between two edges that are neither equal nor adjacent
+        // frames every route with the zero-cost origin and destination edges
+        let framed = match (c.edge_oriented, s.d) {
+            (true, Some(d)) => s.o != d && c.net.edges.get(s.o).map(|e| e.1) != c.net.edges.get(d).map(|e| e.0),
+            _ => false,
+        };
+        let nats = |l: &[usize]| coq_list(l, |e| coq_nat(*e));
+        let op = if framed {
+            cx.st.count("framed_by_zero_cost_end_edges");
+            format!("(TR.OEdge {} {} {})", coq_nat(s.o), coq_nat(s.d.unwrap_or(0)), coq_list(&routes, |ro| nats(if ro.path.len() >= 2 { &ro.path[1..ro.path.len() - 1] } else { &ro.path[..] })))
+        } else {
+            format!("(TR.OMulti {})", coq_list(&routes, |ro| nats(&ro.path)))
+        };
+        let tot = |ro: &RouteOut| -> Vec<f64> { ro.recs.iter().map(|et| et.total_cost().as_f64()).collect() };
+        let text = routes
+            .iter()
+            .enumerate()
+            .map(|(k, ro)| {
+                format!(
+                    "r{}={}/{}",
+                    k,
+                    show_list(&ro.recs, |et| format!("{}:{}:{}:{}", et.edge_id.0, show_f64(et.access_cost.as_f64()), show_f64(et.traversal_cost.as_f64()), show_list(&et.result_state, |x| show_f64(x.0)))),
+                    show_list(&tot(ro), |x| show_f64(*x))
+                )
+            })
+            .collect::<Vec<_>>()
+            .join(" ");
+        let payload = format!("{} sums={} costs={}", text, show_list(&routes, |ro| show_kv(&ro.summary)), show_list(&routes, |ro| show_kv(&ro.cost)));
+        let gen = coq_case(c, q);
+        let kv = |l: &[(String, f64)]| coq_list(l, |(k, v)| format!("({}, {})", coq_string(k), coq_f64(*v)));
+        let recs = |ro: &RouteOut| {
+            coq_list(&ro.recs, |et| format!("Traversal.Build_etrav {} {} {} {}", coq_nat(et.edge_id.0), coq_f64(et.access_cost.as_f64()), coq_f64(et.traversal_cost.as_f64()), coq_list(&et.result_state, |x| coq_f64(x.0))))
+        };
+        (
+            vec![
+                format!("E2E.line_sums_multi_M {}%Z {} {}", id, gen, op),
+                format!(
+                    "E2E.line_sums_multi_S {}%Z {} {} {} {}",
+                    id,
+                    gen,
+                    op,
+                    coq_list(&init, |x| coq_f64(*x)),
+                    coq_list(&routes, |ro| format!("({}, {}, {}, {})", recs(ro), coq_list(&tot(ro), |x| coq_f64(*x)), kv(&ro.summary), kv(&ro.cost)))
+                ),
+            ],
+            payload,
+        )
+    } else {
+        // no route to judge: a route is expected exactly when the destination can be reached and is not the origin itself
+        let start = if c.edge_oriented { c.net.edges.get(s.o).map(|e| e.1) } else { Some(s.o) };
+        let goal = if c.edge_oriented { s.d.and_then(|d| c.net.edges.get(d).map(|e| e.0)) } else { s.d };
+        let same = s.d == Some(s.o);
+        let adjacent = c.edge_oriented && start.is_some() && start == goal;
+        let reach = match (start, goal) {
+            (Some(a), Some(b)) => !same && (adjacent || (a != b && bfs(c, &[], a).get(b).copied().unwrap_or(false))),
+            _ => false,
+        };
+        let expected = if reach { "a judged route (reachable destination)" } else { "nopath" };
+        let mut payload = r.status.clone();
+        if r.status == "Ok" {
+            payload = if c.edge_oriented && same && routes.is_empty() { "nopath".to_string() } else { format!("Ok routes={} mm={} shape={}", routes.len(), s.mm, malformed.join("+")) };
+        }
+        (vec![format!("E2E.line_echo \"M\" {}%Z {}", id, coq_string(expected)), format!("E2E.line_echo \"S\" {}%Z {}", id, coq_string(expected))], payload)
+    };
+    let delay = routes.iter().any(|ro| ro.recs.iter().skip(1).any(|et| et.access_cost.as_f64() > 1e-9));
+    if judged && (routes.len() >= 2 || delay || c.edge_oriented) && routes.iter().any(|ro| ro.path.len() >= 2) {
         cx.st.mark_nontrivial(&format!("{}|{}", cfg_json(c), qry_json(q)));
     }
     let d = desc(cx, id, fam, c, q, &payload);
@@ -1368,6 +1465,34 @@ fn sums_shapes() -> Vec<(String, Cfg, Qry)> {
     c5.input = Inp::Vertex;
     c5.astar = false;
     out.push(("map_matched".into(), c5, plain_q(3, Some(0))));
+    // several routes in one response (single-via k-shortest paths): every route has its own summary and cost;
+    // edge-oriented queries: every route is framed by the zero-cost origin and destination edges
+    for k in 2..=4usize {
+        for (j, mk_net) in [diamond_net as fn() -> Net, two_lanes_net as fn() -> Net].iter().enumerate() {
+            let mut ck = json_route(if (k + j) % 2 == 0 { dist_cfg(mk_net(), "Kilometers", 0.0) } else { base_cfg(mk_net()) });
+            ck.astar = k % 2 == 0;
+            ck.tree_fmt = None;
+            ck.ksp = Some(KspCfg { yens: false, k, sim: None, term: None });
+            if (k + j) % 2 == 1 {
+                let n = ck.net.clone();
+                ck.turn = Some(TurnCfg { headings: geo_headings(&n), table: full_turn_table(2.0), unit: "Seconds".into() });
+            }
+            out.push((format!("ksp_single_via_k{}", k), ck.clone(), plain_q(0, Some(3))));
+            // edge-oriented: from the first edge leaving vertex 0 to an edge that leaves vertex 3
+            let o = 0usize;
+            if let Some(d) = (0..ck.net.edges.len()).find(|e| ck.net.edges[*e].0 == 3 && ck.net.edges[*e].1 != ck.net.edges[o].0 && ck.net.edges[o].1 != 3) {
+                let mut ce = ck.clone();
+                ce.edge_oriented = true;
+                out.push((format!("ksp_single_via_k{}_edge_oriented", k), ce, plain_q(o, Some(d))));
+            }
+        }
+    }
+    let mut ce = json_route(base_cfg(net.clone()));
+    ce.edge_oriented = true;
+    ce.tree_fmt = None;
+    out.push(("edge_oriented".into(), ce.clone(), plain_q(0, Some(3))));
+    out.push(("edge_oriented_adjacent".into(), ce.clone(), plain_q(0, Some(1))));
+    out.push(("edge_oriented_same_edge".into(), ce, plain_q(2, Some(2))));
     out
 }
 
@@ -1485,7 +1610,13 @@ fn gen_case(r: &mut Rng, stream: &str) -> (String, Cfg, Qry, Vec<&'static str>) 
     if sums {
         c.route_fmt = "json".into();
         c.tree_fmt = if r.chance(1, 3) { Some("json".into()) } else { None };
-        c.input = if r.chance(1, 4) { Inp::Vertex } else { Inp::None };
+        c.edge_oriented = r.chance(1, 4) && c.net.edges.len() >= 2;
+        c.input = if r.chance(1, 4) { if c.edge_oriented { Inp::Edge } else { Inp::Vertex } } else { Inp::None };
+        if r.chance(1, 3) {
+            // single-via k-shortest paths, k in 2..4: a response with several routes
+            c.tree_fmt = None;
+            c.ksp = Some(KspCfg { yens: false, k: 2 + r.below(3) as usize, sim: None, term: None });
+        }
     } else {
         c.route_fmt = if r.chance(3, 10) { "json".into() } else { "edge_id".into() };
         c.tree_fmt = match r.below(4) {
@@ -1801,11 +1932,24 @@ fn gen_frontier(r: &mut Rng, net: &Net) -> (FCfg, Map<String, Value>) {
         _ => (true, true, true),
     };
     if want_rc {
-        let nclasses = 2 + r.below(4) as u8;
-        let lookup: Vec<u8> = (0..m).map(|_| if r.chance(2, 3) { 0 } else { r.below(nclasses as u64) as u8 }).collect();
+        // half of the tables use class ids from the full u8 range built around ids that differ by multiples of 64
+        // (c, c+64, c+128, c+192; 0/64/128/192; 63/127/191/255): a set narrower than 256 values confuses them (seeded/C04-7)
+        let universe: Vec<u8> = if r.chance(1, 2) {
+            let base = match r.below(4) { 0 => 0u8, 1 => 63, _ => r.below(64) as u8 };
+            let other = r.below(64) as u8;
+            let mut u = vec![base, base + 64, base + 128, base + 192, other, other.wrapping_add(64 * (1 + r.below(3) as u8))];
+            let mut seen = std::collections::BTreeSet::new();
+            u.retain(|c| seen.insert(*c));
+            u
+        } else {
+            (0..2 + r.below(4) as u8).collect()
+        };
+        let class_name = |c: u8| if (c as usize) < CLASS_NAMES.len() { CLASS_NAMES[c as usize].to_string() } else { format!("class_{}", c) };
+        let common = universe[0];
+        let lookup: Vec<u8> = (0..m).map(|_| if r.chance(2, 3) { common } else { *r.pick(&universe) }).collect();
         let with_mapping = r.chance(1, 2);
-        let mapping: Vec<(String, u8)> = if with_mapping { (0..nclasses).map(|c| (CLASS_NAMES[c as usize].to_string(), c)).collect() } else { vec![] };
-        let mut allowed: Vec<u8> = (0..nclasses).filter(|c| if *c == 0 { r.chance(9, 10) } else { r.chance(1, 2) }).collect();
+        let mapping: Vec<(String, u8)> = if with_mapping { universe.iter().map(|c| (class_name(*c), *c)).collect() } else { vec![] };
+        let mut allowed: Vec<u8> = universe.iter().copied().filter(|c| if *c == common { r.chance(9, 10) } else { r.chance(1, 3) }).collect();
         if r.chance(1, 6) {
             if let Some(x) = allowed.first().copied() {
                 allowed.push(x);
@@ -1813,7 +1957,7 @@ fn gen_frontier(r: &mut Rng, net: &Net) -> (FCfg, Map<String, Value>) {
         }
         if !r.chance(1, 10) {
             if with_mapping && r.chance(1, 2) {
-                query.insert("road_classes".into(), json!(allowed.iter().map(|c| CLASS_NAMES[*c as usize]).collect::<Vec<_>>()));
+                query.insert("road_classes".into(), json!(allowed.iter().map(|c| class_name(*c)).collect::<Vec<_>>()));
             } else {
                 query.insert("road_classes".into(), json!(allowed));
             }
@@ -1928,11 +2072,12 @@ struct RouteOut {
     path: Vec<usize>,
     recs: Vec<EdgeTraversal>,
     summary: Vec<(String, f64)>,
+    cost: Vec<(String, f64)>,
 }
 /// `route` of a successful response: null (no route), one object, or an array of objects
 fn parse_routes(v: &Value, malformed: &mut Vec<String>) -> Vec<RouteOut> {
     let one = |route: &Value, malformed: &mut Vec<String>| -> RouteOut {
-        let mut ro = RouteOut { path: vec![], recs: vec![], summary: kv_f64(route.get("traversal_summary").unwrap_or(&Value::Null)) };
+        let mut ro = RouteOut { path: vec![], recs: vec![], summary: kv_f64(route.get("traversal_summary").unwrap_or(&Value::Null)), cost: kv_f64(route.get("cost").unwrap_or(&Value::Null)) };
         match route.get("path").and_then(|p| p.as_array()) {
             None => malformed.push("route without path".into()),
             Some(p) => {
@@ -2132,6 +2277,15 @@ fn frontier_shapes() -> Vec<(String, Cfg, Qry)> {
         mk("class_numbers_with_mapping", rc(&named), ex(&[("road_classes", json!([0, 0]))]), false, 3, Some(0));
         mk("class_names_allow_all", rc(&named), ex(&[("road_classes", json!(["path", "road", "track"]))]), false, 0, Some(3));
         mk("class_list_absent", rc(&named), Map::new(), false, 0, Some(3));
+        // class ids that differ by 64 (seeded/C04-7): the short path's middle edges have class 71, all others class 7
+        let alias_named: Vec<(String, u8)> = vec![("seven".into(), 7), ("seventy_one".into(), 71), ("one_three_five".into(), 135)];
+        let rc_alias = |mapping: &[(String, u8)]| FCfg::RoadClass { lookup: vec![7, 71, 7, 7, 7, 71, 7, 7], mapping: mapping.to_vec() };
+        mk("class_alias_7_not_71", rc_alias(&[]), ex(&[("road_classes", json!([7]))]), false, 0, Some(3));
+        mk("class_alias_71_not_7", rc_alias(&[]), ex(&[("road_classes", json!([71]))]), false, 0, Some(3));
+        mk("class_alias_135_only", rc_alias(&alias_named), ex(&[("road_classes", json!([135, 199]))]), false, 0, None);
+        mk("class_alias_names_7_not_71", rc_alias(&alias_named), ex(&[("road_classes", json!(["seven", "one_three_five"]))]), false, 0, Some(3));
+        mk("class_alias_names_71_not_7", rc_alias(&alias_named), ex(&[("road_classes", json!(["seventy_one"]))]), false, 0, None);
+        mk("class_alias_both", rc_alias(&alias_named), ex(&[("road_classes", json!(["seven", "seventy_one"]))]), false, 0, Some(3));
         mk("class_list_empty", rc(&[]), ex(&[("road_classes", json!([]))]), false, 0, Some(3));
         mk("class_other_only", rc(&[]), ex(&[("road_classes", json!([3, 7]))]), false, 0, Some(3));
         mk("class_no_destination", rc(&named), ex(&[("road_classes", json!(["road"]))]), false, 0, None);
@@ -2370,6 +2524,13 @@ fn gen_limit_sweep(rng: &mut Rng, needed_it: u64, needed_sz: u64, cap: usize) ->
     let f = 1 + rng.below(4);
     js.push(json!({"type": "query_runtime", "limit": GENEROUS, "frequency": f}));
     js.push(json!({"type": "combined", "models": [{"type": "query_runtime", "limit": GENEROUS, "frequency": f}, {"type": "iterations", "limit": a}]}));
+    // (C10) two limits of the same kind in one combined section, the stricter one first: directly, and with the looser
+    // one inside a nested combined block; the control order
+    let strict = rng.below(needed_it.max(1));
+    js.push(json!({"type": "combined", "models": [{"type": "iterations", "limit": strict}, {"type": "iterations", "limit": needed_it + 1000}]}));
+    js.push(json!({"type": "combined", "models": [{"type": "iterations", "limit": strict},
+        {"type": "combined", "models": [{"type": "query_runtime", "limit": GENEROUS, "frequency": f}, {"type": "iterations", "limit": needed_it + 1000}]}]}));
+    js.push(json!({"type": "combined", "models": [{"type": "solution_size", "limit": needed_sz + 1000}, {"type": "solution_size", "limit": rng.below(needed_sz.max(1))}]}));
     js
 }
 fn limit_kind(j: &Value) -> String {
